@@ -138,7 +138,13 @@ pub fn set_echo(on: bool) {
 pub fn announce(case: &str) {
     if ECHO.load(Ordering::Relaxed) != 0 {
         // external monitors (Miri, ASan) abort the process: the last echoed case is the culprit
-        eprintln!("GLAMSIM-CASE {case}");
+        // one unformatted write (the formatting machinery is slow under the interpreter)
+        use std::io::Write;
+        let mut line = Vec::with_capacity(case.len() + 16);
+        line.extend_from_slice(b"GLAMSIM-CASE ");
+        line.extend_from_slice(case.as_bytes());
+        line.push(b'\n');
+        let _ = std::io::stderr().write_all(&line);
     }
     let b = case.as_bytes();
     let n = b.len().min(1024);
